@@ -1,9 +1,9 @@
 package main
 
 import (
-	"sort"
 	"fmt"
 	"go/types"
+	"sort"
 	"strings"
 
 	"golang.org/x/tools/go/ssa"
